@@ -391,15 +391,31 @@ func (n NaturalLanguageValues) MarshalJSON() ([]byte, error) {
 	}
 	b.Write([]byte{'{'})
 	empty := true
+	// a JSON object must not repeat a member name: of the entries that would be written under one name (the same tag
+	// twice, or tags that differ only in bytes JSON can not carry) the first is written, as Get returns the first
+	written := make([][]byte, 0, l)
 	for _, val := range n {
 		if len(val.Ref) == 0 || len(val.Value) == 0 {
 			continue
 		}
+		name := bytes.Buffer{}
+		stringBytes(&name, []byte(val.Ref), false)
+		repeated := false
+		for _, w := range written {
+			if bytes.Equal(w, name.Bytes()) {
+				repeated = true
+				break
+			}
+		}
+		if repeated {
+			continue
+		}
+		written = append(written, name.Bytes())
 		if !empty {
 			b.Write([]byte{','})
 		}
 		// every entry of a language map needs its member name, the untagged one ("-") included
-		stringBytes(&b, []byte(val.Ref), false)
+		b.Write(name.Bytes())
 		b.Write([]byte{':'})
 		stringBytes(&b, val.Value, false)
 		empty = false
